@@ -400,6 +400,15 @@ impl<'a> Model<'a> {
                 let t = self.parse(prog)?;
                 Res::Text(self.describe_stmts(&t))
             }
+            Op::WithManager { regs, then } => {
+                // a registration is in effect when its set_* call returns, whatever handle it went through
+                for (kind, name, id) in regs {
+                    let key = if kind.named() { name.clone() } else { String::new() };
+                    self.desc.insert((*kind, key), *id);
+                }
+                let rs: Vec<Res> = then.iter().map(|o| self.guarded(o)).collect();
+                Res::Many(rs)
+            }
             Op::OnThread { ops } => {
                 let saved = self.cur_task;
                 self.cur_task = self.next_task;
